@@ -90,11 +90,44 @@ func inlinedTwin(op *Op) *Op {
 	return t
 }
 
+const kindLeftoverPlaceholder = "printed form differs from the class root only by a leftover __internal_typename placeholder"
+
+// withoutPlaceholder removes the normalizer's placeholder selection from a printed operation.
+func withoutPlaceholder(printed string) string {
+	s := strings.ReplaceAll(printed, placeholderAlias+": __typename", "")
+	return strings.Join(strings.Fields(strings.NewReplacer("{", " { ", "}", " } ").Replace(s)), " ")
+}
+
+func hasSelfAlias(op *Op) bool {
+	for _, s := range op.sets() {
+		for _, n := range *s.Sel {
+			if n.K == 'f' && n.Alias != "" && n.Alias == n.Name {
+				return true
+			}
+		}
+	}
+	return false
+}
+
+func withoutSelfAliases(op *Op) *Op {
+	t := op.clone()
+	for _, s := range t.sets() {
+		for _, n := range *s.Sel {
+			if n.K == 'f' && n.Alias == n.Name {
+				n.Alias = ""
+			}
+		}
+	}
+	return t
+}
+
 type checker struct {
 	gschema *gast.Schema
 	root    *c03ref.Obj
 	// memo of class roots of the current base: key -> normalized print ("" + err when not usable)
 	roots map[string]*rootInfo
+	// singlePass: also judge idempotence of ONE Request.Normalize call (second seam)
+	singlePass bool
 }
 
 type rootInfo struct {
@@ -217,6 +250,14 @@ func (c *checker) judge(op *Op, need int) (v verdict) {
 		repoOK, repoMsg = repoValidate(inlinedTwin(op).Text())
 		v.Twin = true
 	}
+	if !repoOK && strings.Contains(repoMsg, "differing fields") && hasSelfAlias(op) {
+		// The repository's validator compares alias bytes, so on a pristine document it
+		// reports `x: x` next to `x` as a conflict; the engine never sees that (stage 1
+		// removes self aliases before it validates). Ask it about the syntactic twin
+		// without self aliases (and without spreads).
+		repoOK, repoMsg = repoValidate(withoutSelfAliases(inlinedTwin(op)).Text())
+		v.Twin = true
+	}
 	gqlOK := len(verrs) == 0
 	switch {
 	case !gqlOK && !repoOK:
@@ -318,6 +359,29 @@ func (c *checker) judge(op *Op, need int) (v verdict) {
 				fmt.Sprintf("second normalization yields variables %s", n2.Vars)})
 		}
 	}
+	// --- clause 3 on the second seam: one Normalize call with the default options
+	if c.singlePass {
+		var s1, s2 normResult
+		if p, site, text := catch(func() { s1 = normalizeOnce(v.Text, v.Vars) }); p {
+			v.Findings = append(v.Findings, finding{clPanic, "panic in " + site + " (single Normalize call)", fmt.Sprintf("panic: %s", text)})
+		} else if s1.Stage == "" {
+			if p, site, text := catch(func() { s2 = normalizeOnce(s1.Printed, s1.Vars) }); p {
+				v.Findings = append(v.Findings, finding{clPanic, "panic in " + site + " (second single Normalize call)", fmt.Sprintf("panic: %s", text)})
+			} else if s2.Stage != "" {
+				v.Findings = append(v.Findings, finding{clIdem, "single Normalize call: a second call fails: " + msgKind(s2.Err),
+					fmt.Sprintf("one Request.Normalize(schema) call prints %s variables %s\na second call on that output fails: %s", s1.Printed, s1.Vars, s2.Err)})
+			} else {
+				if s2.Printed != s1.Printed {
+					v.Findings = append(v.Findings, finding{clIdem, "single Normalize call: printed operation changes",
+						fmt.Sprintf("one Request.Normalize(schema) call (default options) prints %s\na second call on that output prints %s", s1.Printed, s2.Printed)})
+				}
+				if !sameJSON(s2.Vars, s1.Vars) {
+					v.Findings = append(v.Findings, finding{clIdem, "single Normalize call: variables change",
+						fmt.Sprintf("one Request.Normalize(schema) call yields variables %s\na second call yields %s", s1.Vars, s2.Vars)})
+				}
+			}
+		}
+	}
 	_ = resp0
 	return v
 }
@@ -368,7 +432,11 @@ func (c *checker) evalCase(base *Op, decs []Dec, need int) (r caseResult, ok boo
 	r.CanonChk = true
 	ri.members++
 	if ri.printed != r.V.Norm.Printed {
-		r.Findings = append(r.Findings, finding{clCanon, "printed form differs from the class root",
+		kind := "printed form differs from the class root"
+		if withoutPlaceholder(r.V.Norm.Printed) == withoutPlaceholder(ri.printed) {
+			kind = kindLeftoverPlaceholder
+		}
+		r.Findings = append(r.Findings, finding{clCanon, kind,
 			fmt.Sprintf("class root %s variables %s\n  normalizes to %s\nvariant normalizes to %s", ri.text, ri.vars, ri.printed, r.V.Norm.Printed)})
 	}
 	// self-check of the check: variant and root must mean the same
@@ -561,6 +629,47 @@ func simpler(d Dec, op *Op) []Dec {
 			c.Form = f
 			out = append(out, c)
 		}
+	case "selftwin":
+		for _, f := range selfTwinForms {
+			if f == d.Form {
+				break
+			}
+			c := d
+			c.Form = f
+			out = append(out, c)
+		}
+	case "mdir":
+		where, sib, atoms, ok := parseMdir(d.Form)
+		if !ok {
+			break
+		}
+		mk := func(w, sb string, at []string) Dec {
+			c := d
+			c.Form = w + "/" + sb + "/" + strings.Join(at, ",")
+			return c
+		}
+		if sib != "none" {
+			out = append(out, mk(where, "none", atoms))
+		}
+		if where != "on" {
+			out = append(out, mk("on", sib, atoms))
+		}
+		if len(atoms) > 1 {
+			for i := range atoms {
+				at := append(append([]string(nil), atoms[:i]...), atoms[i+1:]...)
+				out = append(out, mk(where, sib, at))
+			}
+		}
+		for i, a := range atoms {
+			for _, b := range mdirAtoms {
+				if b == a {
+					break
+				}
+				at := append([]string(nil), atoms...)
+				at[i] = b
+				out = append(out, mk(where, sib, at))
+			}
+		}
 	case "twin":
 		for v := 0; v <= d.Val; v++ {
 			for _, f := range []string{"fwd", "rev"} {
@@ -719,6 +828,36 @@ func describe(op *Op, d Dec) (desc, feature string) {
 		return fmt.Sprintf("duplicate (%s) of %s in %s scope", d.Form, nodeShape(n), scope), "field_deduplication / selection merging"
 	case "wrap":
 		return fmt.Sprintf("run wrapped as %s in %s scope", d.Form, scope), "fragment inlining"
+	case "selftwin":
+		how := "directly"
+		switch {
+		case strings.HasPrefix(d.Form, "inl"), strings.HasPrefix(d.Form, "frag"):
+			how = "through a fragment"
+		case strings.HasPrefix(d.Form, "split"):
+			how = "with split selection"
+		}
+		return fmt.Sprintf("%s next to a self-aliased copy of itself (%s)", nodeShape(n), how), "remove_self_aliasing + selection merging"
+	case "mdir":
+		_, sib, atoms, _ := parseMdir(d.Form)
+		var eff []string
+		vars := false
+		for _, a := range atoms {
+			eff = append(eff, mdirEffect(a))
+			if len(a) == 3 {
+				vars = true
+			}
+		}
+		desc := fmt.Sprintf("%d directives [%s] on one node", len(atoms), strings.Join(eff, ", "))
+		if vars {
+			desc += ", through variables"
+		}
+		switch sib {
+		case "rem":
+			desc += "; the first directive of the document removes another node"
+		case "keep":
+			desc += "; the first directive of the document keeps another node"
+		}
+		return desc, "directive_include_skip (several directives on one node)"
 	case "twin":
 		cl := "?"
 		if d.Val < len(twinMenu) {
@@ -851,5 +990,11 @@ func classify(base *Op, decs []Dec, f finding) (site, class string) {
 	}
 	site = strings.Join(sortedKeys(feats), " + ") + " / " + f.Kind
 	class = strings.Join(descs, "; ")
+	if f.Kind == kindLeftoverPlaceholder {
+		// the failure kind identifies the defect; how the emptied selection set got next to
+		// other selections (which fragment form, duplicate, self-aliased twin) does not matter
+		site = "directive_include_skip + flattening / " + f.Kind
+		class = "selection set emptied by @skip/@include, then flattened or merged into a selection set that is not empty"
+	}
 	return
 }
